@@ -345,6 +345,13 @@ impl Store {
                         None => (None, 0),
                     };
 
+                    // The historical replay may already have delivered `limit` frames
+                    if let Some(limit) = limit {
+                        if count >= limit {
+                            return;
+                        }
+                    }
+
                     let mut broadcast_rx = broadcast_rx;
                     while let Ok(frame) = broadcast_rx.recv().await {
                         #[cfg(feature = "verif-hooks")]
